@@ -352,7 +352,7 @@ def obligations(tier):  # noqa: F811
                                   bounded=f"one column-hiding step >> every step V of the alphabet >> with / without alias(keep_col_refs=True) >> 3 uses of the hidden column; input `{kind}`"))
     from . import c06
 
-    obs.append(Obligation("C01/J/outer_join_matrix", "J", "exact row combinations of inner / left / full joins with computed, constant, filtered, aliased and nested operands: Polars and SQLite against a Python oracle (= C06/N5)", c06.n5_run, functions=fns,
+    obs.append(Obligation("C01/J/outer_join_matrix", "J", "exact row combinations of inner / left / full joins with computed, constant, filtered, aliased and nested operands: Polars and SQLite against a Python oracle (= C06/N5)", c06.n5_core_run, functions=fns,
                           bounded="the C06/N5 join matrix: 20 predicate shapes x 3 join kinds x 13 operand variants x 2 backends"))
     for ch in range(8):
         obs.append(Obligation(f"C01/O/operator_sweep/{ch}", "O", "every operator x accepted signature in a one-verb pipeline: Polars vs SQLite, row by row", make_o(ch, 8), functions=fns[:2] + [H.fn_info(H.polars_backend.compile_col_expr), H.fn_info(H.sql_backend.SqlImpl.compile_col_expr)],
